@@ -360,6 +360,7 @@ where
                 let evals = &evals;
                 s.spawn(move || {
                     let seed = mix(mix(ctx.seed, hash64(&(ctx.prop.as_str(), self.name))), shard);
+                    crate::hrand::set_thread_keys(seed);
                     let mut bytes = [0u8; 32];
                     for (i, b) in bytes.iter_mut().enumerate() {
                         *b = (mix(seed, i as u64 / 8) >> ((i % 8) * 8)) as u8;
